@@ -2,7 +2,7 @@
 import ast
 import itertools
 import networkx as nx
-from .core import norm, dotted, names_in, body_walk, AnalysisError
+from .core import norm, dotted, names_in, body_walk, AnalysisError, inline_expr
 from .cfg import CFG, facts_at, flatten_and
 from .report import Incomplete
 
@@ -571,13 +571,20 @@ def check_writers(model, R, P, ops):
 def check_reset(model, R, P):
     R.rule(P + '.RESET', 'Tensor.zero_ installs fresh zeros shaped like data; Module.zero_grad / Optimizer.zero_grad call zero_ on the parameters they own that require grad and write nothing else', floor=3)
     z = model.func(TENSOR + '.zero_')
-    stmts = [n for n in body_walk(z.node) if isinstance(n, ast.stmt)]
+    stmts = [n for n in body_walk(z.node) if isinstance(n, ast.stmt) and not (isinstance(n, ast.Expr) and isinstance(n.value, ast.Constant))]
+    stores = [n for n in stmts if isinstance(n, ast.Assign) and isinstance(n.targets[0], ast.Attribute) and n.targets[0].attr in ('grad', '_grad')]
+    others = [n for n in stmts if n not in stores and not (isinstance(n, ast.Assign) and all(isinstance(t, ast.Name) for t in n.targets))]
     ok = False
-    for n in stmts:
-        if isinstance(n, ast.Assign) and isinstance(n.targets[0], ast.Attribute) and n.targets[0].attr in ('grad', '_grad'):
-            calls = [c for c in ast.walk(n.value) if isinstance(c, ast.Call) and model.resolve(z.mod, c.func) in ('numpy.zeros_like', 'numpy.zeros')]
-            ok = any(norm(c.args[0]) in ('self.data', 'self.shape', 'self.data.shape') for c in calls if c.args)
-    R.ob(P + '.RESET', z.qualname, ' ; '.join(norm(n) for n in stmts)[:120], ok and len(stmts) == 1, 'zero_ must install np.zeros_like(self.data) and nothing else', z.loc)
+    if len(stores) == 1:
+        v = inline_expr(z.node, stores[0].value)
+        calls = [c for c in ast.walk(v) if isinstance(c, ast.Call) and model.resolve(z.mod, c.func) in ('numpy.zeros_like', 'numpy.zeros')]
+        ok = len(calls) == 1 and bool(calls[0].args) and norm(calls[0].args[0]) in ('self.data', 'self.shape', 'self.data.shape') and norm(stores[0].targets[0].value) == 'self'
+        if ok and model.resolve(z.mod, calls[0].func) == 'numpy.zeros':
+            ok = any(k.arg == 'dtype' and norm(k.value) in ('self.dtype', 'self.data.dtype') for k in calls[0].keywords)
+        # the stored value is that fresh array (optionally wrapped in Tensor(...)), not something combined with the old buffer
+        inner = v.args[0] if isinstance(v, ast.Call) and dotted(v.func) == 'Tensor' and v.args else v
+        ok = ok and inner is calls[0] if ok else False
+    R.ob(P + '.RESET', z.qualname, ' ; '.join(norm(n) for n in stmts)[:120], ok and not others, 'zero_ must install np.zeros_like(self.data) and nothing else', z.loc)
     for q, coll in ((('synapgrad.nn.modules.Module.zero_grad'), 'self.parameters()'), (('synapgrad.optim.optimizers.Optimizer.zero_grad'), 'self.parameters')):
         fn = model.func(q)
         loops = [n for n in fn.node.body if isinstance(n, ast.For)]
